@@ -67,12 +67,14 @@ func verifStrandedFinal(c *connection) func() {
 //  1: client-style connection without handler; SetOnRequest races with a delivery
 //  2: scenario 0 followed by a peer hang-up: buffered input is offered before close callbacks
 //  3: OnConnect still running when the first data arrives
+//  5: the request handler is installed by OnConnect itself (SetOnRequest from inside the
+//     callback) while the first data arrives: the data must still be offered
 //  4: client-style connection without handler: a delivery and then the peer's hang-up, with
 //     SetOnRequest at any moment (before, between, after): the buffered input is offered
 //
 //verif:po
-//verif:bounds scenarios 0-4: 2 deliveries (sizes symbolic in [1,4]) / SetOnRequest racing a delivery / delivery + hang-up / OnConnect running / handler-less connection with delivery + hang-up + SetOnRequest; handler consumes any 1..Len per call, <= 3 task instances, state revisits <= 3; buffers summarised on length
-//verif:param 0 4
+//verif:bounds scenarios 0-5: 2 deliveries (sizes symbolic in [1,4]) / SetOnRequest racing a delivery / delivery + hang-up / OnConnect running / handler-less connection with delivery + hang-up + SetOnRequest / handler installed by OnConnect; handler consumes any 1..Len per call, <= 3 task instances, state revisits <= 3; buffers summarised on length
+//verif:param 0 5
 //verif:loop 40
 //verif:poloop 3
 //verif:potimeout 900
@@ -90,6 +92,8 @@ func verifHarness_C06_handoff(sc int) {
 		c = verifNewConn(verifConnCfg{onRequest: true, closeCBs: 1, handler: verifHandlerConsume})
 	case 3:
 		c = verifNewConnOnConnect(verifHandlerAll)
+	case 5:
+		c = verifNewConnOnConnectSets(verifHandlerAll)
 	}
 	op := c.operator
 	p := op.poll.(*defaultPoll)
@@ -142,6 +146,15 @@ func verifHarness_C06_handoff(sc int) {
 			c.SetOnRequest(verifHandlerAll)
 			verifReach("handler-set")
 		})
+	case 5:
+		verifThread("accept", func() {
+			c.onConnect()
+			verifReach("accepted")
+		})
+		verifThread("poller", func() {
+			verifDeliver(op, vs, "chunk1")
+			verifReach("delivered")
+		})
 	case 3:
 		verifThread("accept", func() {
 			c.onConnect()
@@ -153,4 +166,25 @@ func verifHarness_C06_handoff(sc int) {
 		})
 	}
 	verifFinal("quiescent", verifStrandedFinal(c))
+}
+
+// a connection whose OnConnect callback installs the request handler itself
+func verifNewConnOnConnectSets(h func(ctx context.Context, c Connection) error) *connection {
+	verifK = &verifKMon{}
+	runner_RunTask_set()
+	pollmanager = newManager(1)
+	nfd := verifNetFD()
+	c := &connection{}
+	opts := &options{}
+	opts.onConnect = func(ctx context.Context, conn Connection) context.Context {
+		atomic.StoreInt32(&verifK.inConnect, 1)
+		conn.SetOnRequest(h)
+		atomic.StoreInt32(&verifK.inConnect, 0)
+		return ctx
+	}
+	err := c.init(nfd, opts)
+	verifAssume(err == nil)
+	c.AddCloseCallback(verifCloseCB(0))
+	verifK.cb[1] = -1
+	return c
 }
